@@ -729,12 +729,23 @@ func build(o *orc.Oracle, r *rand.Rand, base int64, plan []entryPlan) *built {
 			comp := compressWith(e.codec, inner)
 			wrapperOff := bt.next + rel - 1
 			start := len(bt.bytes)
-			bt.bytes = append(bt.bytes, ask(o, fmt.Sprintf("encset m:1:%d:%d:%d:nil:%s", wrapperOff, int(int8(e.codec|e.extra)), e.recs[n-1].ms, wb(comp)))...)
-			bt.zs = append(bt.zs, fmt.Sprintf("z%d:%d:%s", start+34, len(comp), wb(inner)))
+			// the wrapper's key: null as producers write it; the format allows bytes there (C05-D31), also empty
+			wkey, wkeyLen, ktag := "nil", 0, ""
+			switch r.Intn(4) {
+			case 0:
+				k := gen.Bytes(r, 1+r.Intn(9))
+				wkey, wkeyLen, ktag = wb(k), len(k), "k"
+			case 1:
+				if r.Intn(2) == 0 {
+					wkey, ktag = "-", "k0"
+				}
+			}
+			bt.bytes = append(bt.bytes, ask(o, fmt.Sprintf("encset m:1:%d:%d:%d:%s:%s", wrapperOff, int(int8(e.codec|e.extra)), e.recs[n-1].ms, wkey, wb(comp)))...)
+			bt.zs = append(bt.zs, fmt.Sprintf("z%d:%d:%s", start+34+wkeyLen, len(comp), wb(inner)))
 			bt.next = wrapperOff + 1
 			bt.ends = append(bt.ends, len(bt.bytes))
 			bt.crcAt = append(bt.crcAt, start+12+r.Intn(4))
-			bt.desc = append(bt.desc, fmt.Sprintf("w1c%dx%d%s%s", e.codec, n, map[bool]string{true: "s", false: ""}[e.sparse], extraTag(e.extra)))
+			bt.desc = append(bt.desc, fmt.Sprintf("w1c%dx%d%s%s%s", e.codec, n, map[bool]string{true: "s", false: ""}[e.sparse], ktag, extraTag(e.extra)))
 		case "b2":
 			first, max := e.recs[0].ms, e.recs[0].ms
 			var parts []string
@@ -1390,6 +1401,16 @@ func main() {
 		}
 		evs, res := pageTrace(r, steps)
 		emit("ptrace "+evs, res)
+		return
+	}
+	if mode == "wrapkey" {
+		// exploration (not part of the check): a compressed v1 wrapper that carries a KEY — the hypothesis `hkey` of
+		// Props/C05.decoders_agree_content excludes it (brokers write wrappers with a null key)
+		inner := ask(o, "encset m:1:0:0:1600000000000:6b31:7631 m:1:1:0:1600000000001:6b32:7632")
+		comp := compressWith(1, inner)
+		set := ask(o, fmt.Sprintf("encset m:1:11:1:1600000000001:%s:%s", os.Args[2], wb(comp)))
+		fmt.Println("client:", canonList(fetchClient(set, 10)))
+		fmt.Println("conn:  ", canonList(fetchConn(set, 10, 12, 5)))
 		return
 	}
 	if mode == "pages" {
